@@ -1,3 +1,233 @@
-(* placeholder: theorems follow *)
-From CC Require Import Model.Network.
-Example C15_model_runs : True. Proof. exact I. Qed.
+(* C15 — saving a schematic to JSON and loading it back preserves the translated circuit, for any number of cycles;
+   a declarative element list builds the same circuit as the equivalent programmatic construction.
+   Statements only; every proof is [exact <lemma>].  Model: Model/SaveLoad.v — the DATA PATH of
+   SimpleCircuit/dump_load.py (dictify_element, dictify_all, undictify_element with the merge of the stored circuit's
+   component values by element name, combine_to_complex, the rule of fix 4ff892f, simple_circuit_element_types),
+   of the constructors of SimpleCircuit/Elements.py, of CircuitComponentTranslators.py + components.py, and of
+   SimpleSimulation/schematic.py (element_handlers, element_factory, direction / length / place_after).  The tables and
+   per-class rules are hand-written mirrors.  A translated component carries its terminal POINTS in order: node names,
+   hence connectivity and the reference node, are a function of the terminal points (DiagramParser), and the points are
+   restored verbatim.  Not modelled: the schemdraw drawing state, the JSON text layer, the sign guards of components.py.
+     view_of s  = (class, .name, is_reverse, start point, end point, translate s)   — what is compared
+     good vs    = no class outside the model; the drawing translates; component ids pairwise distinct; an element
+                  without component (wire, generic element) does not carry the id of a component *)
+From Coq Require Import List Bool NArith ZArith QArith Qcanon String.
+From CC Require Import Theory.Field Theory.Complex Model.Network Model.Circuit Model.Loaders Model.SaveLoad Theory.SaveLoadThm.
+Import ListNotations.
+
+(* ================= one cycle, n cycles ================= *)
+Theorem C15_roundtrip : forall (R : fops) (ROK : fops_ok R) (pi : R) (d : list (symbol R)),
+  good R (map (view_of R pi) d) ->
+  exists d', cycle R pi d = Ok d' /\ map (view_of R pi) d' = map (view_of R pi) d.
+Proof. exact cycle_preserves. Qed.
+Print Assumptions C15_roundtrip.
+
+Theorem C15_iterate : forall (R : fops) (ROK : fops_ok R) (pi : R) (n : nat) (d : list (symbol R)),
+  good R (map (view_of R pi) d) ->
+  exists d', cycles R pi n d = Ok d' /\ map (view_of R pi) d' = map (view_of R pi) d.
+Proof. exact cycles_preserve. Qed.
+Print Assumptions C15_iterate.
+
+(* what the hypothesis and the conclusion say *)
+Theorem C15_good_meaning : forall (R : fops) (vs : list (view R)),
+  good R vs <->
+  (Forall (fun v => match v_cls R v with COther _ => False | _ => True end) vs /\
+   exists cs, comps_of_views R vs = Ok cs /\ NoDup (map t_id cs) /\
+     Forall (fun v => v_comp R v = Ok None -> ~ In (v_name R v) (map t_id cs)) vs).
+Proof. exact good_iff. Qed.
+Theorem C15_components_meaning : forall (R : fops) (pi : R) (d : list (symbol R)),
+  components R pi d = comps_of_views R (map (view_of R pi) d).
+Proof. exact components_views. Qed.
+Theorem C15_cycle_meaning : forall (R : fops) (pi : R) (d : list (symbol R)),
+  cycle R pi d = bind (save R pi d) (load R pi).
+Proof. exact cycle_unfold. Qed.
+
+(* one symbol: whatever the stored circuit dictionary holds for other names *)
+Theorem C15_roundtrip_symbol : forall (R : fops) (ROK : fops_ok R) (pi : R) (cd : dict (dict (jval R))) (s : symbol R),
+  match s_cls s with COther _ => False | _ => True end ->
+  (forall c, translate R pi s = Ok (Some c) -> dget cd (pname R s) = Some (t_vals c)) ->
+  (translate R pi s = Ok None -> dget cd (pname R s) = None) ->
+  (exists r, translate R pi s = Ok r) ->
+  exists s', load_symbol R pi true cd (save_symbol R s) = Ok s' /\ view_of R pi s' = view_of R pi s.
+Proof. exact load_save_symbol. Qed.
+Print Assumptions C15_roundtrip_symbol.
+
+(* ================= a class outside the loader table ================= *)
+(* it comes back as the generic Element, which has no translator entry other than `none`: outside the property's domain;
+   e.g. tri_voltage_source, saw_*, labeled_line, node, switch, real_*_source, and Lamp (no .type at all) *)
+Theorem C15_unknown_kind : forall (R : fops) (pi : R) (fixed : bool) cd (s s' : symbol R) (t : option label),
+  s_cls s = COther t -> match t with Some x => tlook element_types x = None | None => True end ->
+  load_symbol R pi fixed cd (save_symbol R s) = Ok s' -> s_cls s' = CElement /\ translate R pi s' = Ok None.
+Proof. exact unknown_kind_generic. Qed.
+Theorem C15_unknown_kind_loads : forall (R : fops) (pi : R) (fixed : bool) cd (s : symbol R) (t : option label),
+  s_cls s = COther t -> match t with Some x => tlook element_types x = None | None => True end ->
+  dget cd (s_name s) = None ->
+  exists s', load_symbol R pi fixed cd (save_symbol R s) = Ok s'.
+Proof. exact unknown_kind_loads. Qed.
+Print Assumptions C15_unknown_kind.
+
+(* ================= witnesses over Qc, pi := 22/7 ================= *)
+Definition QR := Qcops.
+Definition qpi : Qc := qc 22 7.
+Definition n (a : Z) (b : positive) : jval QR := @JNum QR (qc a b).
+Definition pt (x y : Z) : point QR := (qc x 1, qc y 1).
+Definition mk (c : scls) (kw : dict (jval QR)) (a b : point QR) : symbol QR :=
+  match construct QR qpi c kw a b with Ok s => s
+  | Err _ => {| s_cls := CElement; s_name := []; s_reverse := false; s_attr := []; s_user := []; s_start := a; s_end := b |} end.
+
+(* ACVoltageSource(V=10, w=50, phi=30, name='S', deg=True, reverse=True).up(); Resistor(R=5, name='R1').right();
+   Impedance(Z=1+2j, name='Z1').down(); Line().left(); Ground() *)
+Definition ex_drawing : list (symbol QR) :=
+  [mk CACVoltageSource [(q_V, n 10 1); (q_w, n 50 1); (q_phi, n 30 1); (q_name, JStr (lbl "S")); (q_deg, JBool true);
+                        (q_reverse, JBool true)] (pt 0 0) (pt 0 3);
+   mk CResistor [(q_R, n 5 1); (q_name, JStr (lbl "R1"))] (pt 0 3) (pt 3 3);
+   mk CImpedance [(q_Z, @JCplx QR (qc 1 1, qc 2 1)); (q_name, JStr (lbl "Z1"))] (pt 3 3) (pt 3 0);
+   mk CLine [] (pt 3 0) (pt 0 0);
+   mk CGround [] (pt 0 0) (pt 0 0)].
+
+Ltac vmr := match goal with |- ?a = ?b => vm_cast_no_check (@eq_refl _ a) end.   (* checked by the kernel's VM at Qed *)
+
+(* the translation: S on (end, start) = reversed terminals with V = 10 and phi = 30*pi/180 *)
+Example ex_translates : option_map (map (fun c => (t_type c, t_id c, t_nodes c))) (match components QR qpi ex_drawing with Ok cs => Some cs | Err _ => None end)
+  = Some [(t_ac_voltage_source, lbl "S", [pt 0 3; pt 0 0]); (t_resistor, lbl "R1", [pt 0 3; pt 3 3]);
+          (t_impedance, lbl "Z1", [pt 3 3; pt 3 0]); (t_ground, lbl "0", [pt 0 0])].
+Proof. vmr. Qed.
+Example ex_phase : match translate QR qpi (nth 0 ex_drawing (mk CLine [] (pt 0 0) (pt 0 0))) with
+                   | Ok (Some c) => dget (t_vals c) q_phi | _ => None end = Some (@JNum QR (Qcdiv (Qcmult (qc 30 1) qpi) (qc 180 1))).
+Proof. vmr. Qed.
+
+Example ex_good : good QR (map (view_of QR qpi) ex_drawing).
+Proof. apply goodb_ok. vmr. Qed.
+(* hence, by the theorems, and also by computation: four cycles give the same views *)
+Example ex_cycles : option_map (map (view_of QR qpi)) (match cycles QR qpi 4 ex_drawing with Ok d' => Some d' | Err _ => None end)
+  = Some (map (view_of QR qpi) ex_drawing).
+Proof. vmr. Qed.
+(* the reloaded source keeps phi in radians with the degree flag cleared *)
+Example ex_reloaded_flags : match cycle QR qpi ex_drawing with
+                            | Ok (s :: _) => (dget (s_attr s) q_deg, dget (s_user s) q_deg, dget (s_attr s) q_phi)
+                            | _ => (None, None, None) end
+  = (Some (JBool false), Some (JBool false), Some (@JNum QR (Qcdiv (Qcmult (qc 30 1) qpi) (qc 180 1)))).
+Proof. vmr. Qed.
+
+(* ---- before fix 4ff892f: the degree flag stayed set, the phase was converted a second time ---- *)
+Definition phase_of_first (d : list (symbol QR)) : option (jval QR) :=
+  match d with
+  | s :: _ => match translate QR qpi s with Ok (Some c) => dget (t_vals c) q_phi | _ => None end
+  | [] => None
+  end.
+Definition ex_before : list (symbol QR) :=
+  match bind (save QR qpi ex_drawing) (load_before_fix QR qpi) with Ok d' => d' | Err _ => [] end.
+Theorem C15_refuted_before_fix :
+  exists (d d' : list (symbol QR)), good QR (map (view_of QR qpi) d) /\
+    bind (save QR qpi d) (load_before_fix QR qpi) = Ok d' /\
+    map (view_of QR qpi) d' <> map (view_of QR qpi) d /\
+    (* the phase of the source: 30*pi/180 before, (30*pi/180)*pi/180 after *)
+    phase_of_first d = Some (@JNum QR (rad QR qpi (qc 30 1))) /\
+    phase_of_first d' = Some (@JNum QR (rad QR qpi (rad QR qpi (qc 30 1)))).
+Proof.
+  exists ex_drawing, ex_before. split; [exact ex_good|]. split; [vmr|]. split; [|split; vmr].
+  intros H.
+  assert (E : forall a b : list (view QR), a = b ->
+            match a, b with
+            | v :: _, v' :: _ =>
+                match v_comp QR v, v_comp QR v' with
+                | Ok (Some c), Ok (Some c') =>
+                    match dget (t_vals c) q_phi, dget (t_vals c') q_phi with
+                    | Some (JNum x), Some (JNum y) => Qc_eq_bool x y = true
+                    | _, _ => True end
+                | _, _ => True end
+            | _, _ => True end).
+  { intros a b ->. destruct b as [|v b]; [exact I|]. destruct (v_comp QR v) as [[c|]|]; try exact I.
+    destruct (dget (t_vals c) q_phi) as [[]|]; try exact I. unfold Qc_eq_bool. destruct (Qc_eq_dec q q); congruence. }
+  specialize (E _ _ H). vm_compute in E. discriminate E.
+Qed.
+Print Assumptions C15_refuted_before_fix.
+(* the same document through the loader of today *)
+Example ex_after_fix : exists d', bind (save QR qpi ex_drawing) (load QR qpi) = Ok d' /\
+  map (view_of QR qpi) d' = map (view_of QR qpi) ex_drawing.
+Proof. exact (C15_roundtrip QR Qcops_ok qpi ex_drawing ex_good). Qed.
+
+(* ---- an unknown kind: a triangular source is written with type 'tri_voltage_source' and comes back as Element ---- *)
+Definition ex_tri : symbol QR :=
+  {| s_cls := COther (Some (lbl "tri_voltage_source")); s_name := lbl "T"; s_reverse := false;
+     s_attr := [(q_V, n 1 1)]; s_user := [(q_V, n 1 1); (q_w, n 1 1); (q_phi, n 0 1); (q_name, JStr (lbl "T"))];
+     s_start := pt 0 0; s_end := pt 0 3 |}.
+Example ex_unknown : match load_symbol QR qpi true [] (save_symbol QR ex_tri) with
+                     | Ok s' => s_cls s' = CElement /\ translate QR qpi s' = Ok None /\ s_name s' = lbl "T"
+                     | Err _ => False end.
+Proof. vm_compute. repeat split. Qed.
+Example ex_unknown_hyp : tlook element_types (lbl "tri_voltage_source") = None.
+Proof. reflexivity. Qed.
+
+(* a decision procedure for the hypothesis *)
+Theorem C15_good_checker : forall (R : fops) (vs : list (view R)), goodb R vs = true -> good R vs.
+Proof. exact goodb_ok. Qed.
+
+(* ================= declarative element lists ================= *)
+(* build_decl: schematic.fill (handler table, element_factory defaults, the whole entry passed as keyword arguments,
+   direction / length * unit / place_after = end of the first element of that name, default position = end of the
+   element added last).  build_prog: d += Cls( ** kw).<direction>(length).at(obj.end).  equivalent_program: the program
+   with the same classes, the entries' own keyword arguments, absolute lengths and place_after resolved to an object.
+   Compared (pview_of): class, name, reverse flag, the attributes the class computes from its arguments, start, end. *)
+Theorem C15_declarative : forall (R : fops) (pi : R) (unit_ : R) (origin : point R)
+    (es : list (delem R)) (done_d done_p rd : list (placed R)),
+  map (pview_of R pi) done_d = map (pview_of R pi) done_p ->
+  build_decl R unit_ origin done_d es = Ok rd ->
+  exists ss rp, equivalent_program R unit_ (map (pl_name R) done_p) es = Ok ss /\
+    build_prog R origin done_p ss = Ok rp /\ map (pview_of R pi) rd = map (pview_of R pi) rp.
+Proof. exact declarative_is_programmatic. Qed.
+Print Assumptions C15_declarative.
+(* from the empty drawing *)
+Theorem C15_declarative_from_empty : forall (R : fops) (pi : R) (unit_ : R) (origin : point R) (es : list (delem R)) (rd : list (placed R)),
+  build_decl R unit_ origin [] es = Ok rd ->
+  exists ss rp, equivalent_program R unit_ [] es = Ok ss /\
+    build_prog R origin [] ss = Ok rp /\ map (pview_of R pi) rd = map (pview_of R pi) rp.
+Proof. exact declarative_from_empty. Qed.
+(* the layout keys that travel with the entry into the constructor do not change what the class keeps *)
+Theorem C15_layout_keys_ignored : forall (R : fops) (pi : R) (c : scls) (e : delem R) (a b : point R),
+  pview_of R pi {| pl_cls := c; pl_kw := with_defaults R (entry_dict R e); pl_start := a; pl_end := b |}
+  = pview_of R pi {| pl_cls := c; pl_kw := with_defaults R (e_vals R e); pl_start := a; pl_end := b |}.
+Proof. exact new_pview. Qed.
+
+(* witness: {'unit': 3, 'elements': [voltage_source V up, resistor R1 right, resistor R2 down, line left, ground,
+   resistor R3 down length 1 place_after R1]} *)
+Definition de (ty : label) (vals : dict (jval QR)) (d : option direction) (l : option Qc) (a : option label) : delem QR :=
+  {| e_type := ty; e_vals := vals; e_dir := d; e_len := l; e_after := a |}.
+Definition ex_description : list (delem QR) :=
+  [de t_voltage_source [(q_name, JStr (lbl "V")); (q_V, n 12 1)] (Some DUp) None None;
+   de t_resistor [(q_name, JStr (lbl "R1")); (q_R, n 10 1)] (Some DRight) None None;
+   de t_resistor [(q_name, JStr (lbl "R2")); (q_R, n 20 1); (q_reverse, JBool true)] (Some DDown) None None;
+   de t_line [] (Some DLeft) None None;
+   de t_ground [] None None None;
+   de t_resistor [(q_name, JStr (lbl "R3")); (q_R, n 47 1)] (Some DDown) (Some (qc 1 1)) (Some (lbl "R1"))].
+Example ex_decl_builds :
+  option_map (map (fun p => (pl_cls QR p, pl_name QR p, pl_start QR p, pl_end QR p)))
+    (match build_decl QR (qc 3 1) (pt 0 0) [] ex_description with Ok r => Some r | Err _ => None end)
+  = Some [(CVoltageSource, lbl "V", pt 0 0, pt 0 3); (CResistor, lbl "R1", pt 0 3, pt 3 3);
+          (CResistor, lbl "R2", pt 3 3, pt 3 0); (CLine, [], pt 3 0, pt 0 0); (CGround, lbl "", pt 0 0, pt 0 0);
+          (CResistor, lbl "R3", pt 3 3, pt 3 0)].
+Proof. vmr. Qed.
+Example ex_equivalent_program :
+  option_map (map (fun s => (p_cls QR s, p_dir QR s, p_len QR s, p_at QR s)))
+    (match equivalent_program QR (qc 3 1) [] ex_description with Ok r => Some r | Err _ => None end)
+  = Some [(CVoltageSource, Some DUp, qc 3 1, None); (CResistor, Some DRight, qc 3 1, None);
+          (CResistor, Some DDown, qc 3 1, None); (CLine, Some DLeft, qc 3 1, None); (CGround, None, qc 3 1, None);
+          (CResistor, Some DDown, qc 3 1, Some 1%nat)].
+Proof. vmr. Qed.
+Definition ex_rd : list (placed QR) := match build_decl QR (qc 3 1) (pt 0 0) [] ex_description with Ok r => r | Err _ => [] end.
+Example ex_decl_ok : build_decl QR (qc 3 1) (pt 0 0) [] ex_description = Ok ex_rd.
+Proof. vmr. Qed.
+Example ex_decl_prog_same : exists ss rp, equivalent_program QR (qc 3 1) [] ex_description = Ok ss /\
+    build_prog QR (pt 0 0) [] ss = Ok rp /\ map (pview_of QR qpi) ex_rd = map (pview_of QR qpi) rp.
+Proof. exact (C15_declarative_from_empty QR qpi (qc 3 1) (pt 0 0) ex_description ex_rd ex_decl_ok). Qed.
+
+(* ================= recorded for the report (translation rule, not the round trip) =================
+   ACVoltageSource(phi, deg=True, sin=True): __init__ subtracts pi/2 (radians) from a phase given in DEGREES, the
+   translator then converts (phi - pi/2) degrees to radians; the sine reference moves the phase by 1.57 degrees instead of
+   90.  The round trip preserves this value. *)
+Example ex_deg_sin_mix :
+  let s := mk CACVoltageSource [(q_V, n 10 1); (q_w, n 50 1); (q_phi, n 30 1); (q_name, JStr (lbl "S")); (q_deg, JBool true);
+                                (q_sin, JBool true)] (pt 0 0) (pt 0 3) in
+  phase_of_first [s] = Some (@JNum QR (rad QR qpi (Qcminus (qc 30 1) (halfpi QR qpi)))) /\
+  Qc_eq_bool (rad QR qpi (Qcminus (qc 30 1) (halfpi QR qpi))) (Qcminus (rad QR qpi (qc 30 1)) (halfpi QR qpi)) = false.
+Proof. cbv zeta. split; vmr. Qed.
